@@ -18,13 +18,13 @@ import (
 
 func init() {
 	register(&core.Rule{ID: "S22", Min: 4, Arm64: true,
-		Doc: "Blank tests of the Go-level scanners (packages internal/decoder/api, internal/decoder/optdec, ast, decoder, internal/utils and the root package; non-test files): every use of the mask helpers (utils.IsSpace, ast.isSpace, types.SPACE_MASK) is recorded, and no ordered comparison (<, <=, >, >=) of a byte-typed operand with the constant ' ' (0x20) or 0x21 occurs in these packages: such a range test classifies every control byte as whitespace.",
+		Doc: "Blank tests of the Go-level scanners (packages internal/decoder/api, internal/decoder/optdec, ast, decoder, internal/utils and the root package; non-test files): every use of the mask helpers (utils.IsSpace, ast.isSpace, types.SPACE_MASK) is recorded, and no ordered comparison (<, <=, >, >=) of a byte-typed operand with the constant ' ' (0x20) or 0x21 occurs in these packages: such a range test classifies every control byte as whitespace; unicode.IsSpace is rejected for the same reason (it also accepts \\v, \\f, U+0085, U+00A0, U+2028 ...).",
 		Run: runS22})
 }
 
 func runS22(c *core.Ctx) {
 	p := c.Prog
-	scope := map[string]bool{"internal/decoder/api": true, "internal/decoder/optdec": true, "ast": true, "decoder": true, "internal/utils": true, "": true}
+	scope := map[string]bool{"internal/encoder/alg": true, "internal/decoder/api": true, "internal/decoder/optdec": true, "ast": true, "decoder": true, "internal/utils": true, "": true}
 	n := 0
 	for _, pk := range p.Pkgs {
 		if !scope[core.Rel(pk.PkgPath)] {
@@ -45,6 +45,13 @@ func runS22(c *core.Ctx) {
 					switch x := nd.(type) {
 					case *ast.Ident:
 						if o := p.ObjectOf(x); o != nil && p.IsUse(x) {
+							if o.Pkg() != nil && o.Pkg().Path() == "unicode" && (o.Name() == "IsSpace" || o.Name() == "White_Space") {
+								k++
+								n++
+								c.Analysed(fn)
+								c.Bad(fn+"/blank-unicode-test#"+itoa(k), x.Pos(), "unicode.%s is wider than JSON whitespace: \\v, \\f, U+0085, U+00A0, U+2028 ... are stepped over as blanks, so bytes that encoding/json rejects after (or between) values are accepted", o.Name())
+								return true
+							}
 							switch o.Name() {
 							case "IsSpace", "isSpace", "SPACE_MASK":
 								masks++
